@@ -5,7 +5,11 @@ From Coq Require Import NArith.
 Inductive role := RClient | RServer.
 Inductive case :=
 | SeqCase (r : role) (ecdhe offered certreq : bool) (evs : list ev) (accepted : bool)
-| DSeqCase (r : role) (ecdhe offered certreq : bool) (evs : list dev) (accepted : bool).
+| DSeqCase (r : role) (ecdhe offered certreq : bool) (evs : list dev) (accepted : bool)
+(* the same events played by a peer that follows the sequence as if it were legal (its
+   ChangeCipherSpec always switches to the keys it has): only a completion counts, because after a
+   ChangeCipherSpec the endpoint ignored it can no longer read that peer *)
+| DSeqCoop (r : role) (ecdhe offered certreq : bool) (evs : list dev) (accepted : bool).
 
 Definition model_accepts (c : case) : bool :=
   match c with
@@ -13,6 +17,8 @@ Definition model_accepts (c : case) : bool :=
   | SeqCase RServer _ _ certreq evs _ => saccepts (mkSP certreq) evs
   | DSeqCase RClient ecdhe offered _ evs _ => dcaccepts (mkCP ecdhe offered) evs
   | DSeqCase RServer _ _ certreq evs _ => dsaccepts (mkSP certreq) evs
+  | DSeqCoop RClient ecdhe offered _ evs _ => dcaccepts (mkCP ecdhe offered) evs
+  | DSeqCoop RServer _ _ certreq evs _ => dsaccepts (mkSP certreq) evs
   end.
 
 Definition legal (c : case) : bool :=
@@ -21,11 +27,17 @@ Definition legal (c : case) : bool :=
   | SeqCase RServer _ _ certreq evs _ => slegal (mkSP certreq) evs
   | DSeqCase RClient ecdhe offered _ evs _ => dclegal (mkCP ecdhe offered) evs
   | DSeqCase RServer _ _ certreq evs _ => dslegal (mkSP certreq) evs
+  | DSeqCoop RClient ecdhe offered _ evs _ => dclegal (mkCP ecdhe offered) evs
+  | DSeqCoop RServer _ _ certreq evs _ => dslegal (mkSP certreq) evs
   end.
 
-Definition accepted_of (c : case) : bool := match c with SeqCase _ _ _ _ _ a | DSeqCase _ _ _ _ _ a => a end.
+Definition accepted_of (c : case) : bool := match c with SeqCase _ _ _ _ _ a | DSeqCase _ _ _ _ _ a | DSeqCoop _ _ _ _ _ a => a end.
 
-Definition mismatch (c : case) : bool := negb (Bool.eqb (model_accepts c) (accepted_of c)).
+Definition mismatch (c : case) : bool :=
+  match c with
+  | DSeqCoop _ _ _ _ _ a => a && negb (model_accepts c)
+  | _ => negb (Bool.eqb (model_accepts c) (accepted_of c))
+  end.
 
 (* does a dropped (old-epoch / replayed) record follow the ChangeCipherSpec? *)
 Fixpoint old_after_ccs (seen_ccs : bool) (es : list dev) : bool :=
@@ -45,6 +57,7 @@ Definition spec_code (c : case) : N :=
   else if negb (accepted_of c) && legal c then
     match c with
     | DSeqCase _ _ _ _ evs _ => if old_after_ccs false evs then 3%N else 2%N
+    | DSeqCoop _ _ _ _ _ _ => 0%N
     | _ => 2%N
     end
   else 0%N.
